@@ -23,7 +23,7 @@ func init() {
 			"R2: Cancel (the function that calls heap.Remove: the future's method or the one it forwards to) removes by index only on the 'still queued' edge (idx>=0, or idx != m when m is the one negative constant every store outside Swap/Push writes into the index), known directly, through a flag or through the outcome of a read-only predicate of the package (idx>=0 at every exit of it that can give that outcome), under the lock; the removed index is that field of the tested future, read at the call or handed over together with the flag (idx, ok: every alternative possible under the flag). " +
 			"R3: every heap.Pop in the worker or a helper it calls is dominated by the true edge of now.After(t) / t.Before(now) with t the fire time of element 0 of the heap (every alternative possible under the guards) and now=time.Now() (in a helper: at every call of it), all in one critical section. " +
 			"R4: the callback field is invoked only in the worker, and every origin of the invoked value is nil or the callback of the future just returned by heap.Pop - directly or by a helper all of whose results are nil or such a future (a value carried over an iteration is provably nil). " +
-			"R5: Call stores time.Now().Add(d) into the fire-time field before queueing. " +
+			"R5: Call stores time.Now().Add(d) into the fire-time field before queueing (when Call is a pure delegation `return g(f, ...)` the function that builds the future is g: the roles and R5-R8 are decided there, and the stored fire time is the parameter of g that Call hands time.Now().Add(d) to). " +
 			"R6: the heap, the worker count and the futures' index/callback fields are touched only with the package lock held (heap.Interface methods inherit the lock of their heap.* call sites; a private function is entered with the locks held at all of its call sites, a fixed point over the package; objects under construction - the future in Call, the control block in its constructor - and package init are exempt). " +
 			"R7: the queue's slice and its elements are written only by the heap.Interface methods (all removals go through Pop, which resets the index); the holder of the queue (the control block's heap field, the control block, the package variable) is stored to, outside init and construction, only when the queue is known to be empty or behind a loop over the whole queue that gives every element a negative index (futures dropped with their old positions make a later Cancel remove another call); and Call hands out a freshly allocated future (a recycled object would make a late Cancel hit another caller's future). " +
 			"R8: a future with a callback is in the heap when Call returns: on every path of Call on which the callback is not nil, and on every path of each function the future is handed to on the way, heap.Push of that very future is executed in the caller's own activation (plain or deferred calls, not a goroutine or a side list) - Cancel reads a negative index as 'fired or cancelled' and returns, so an insertion that happens after Call has returned cannot be cancelled; the requirement falls away when Cancel withdraws the callback on every path. When the package starts other goroutines besides the worker, the worker is the started function that pops the heap.",
@@ -57,11 +57,13 @@ type timerRoles struct {
 	ctrlMethods, heapMethods, all []*ssa.Function
 	entries                       map[bool]map[*ssa.Function]map[string]bool
 	locksets                      map[*ssa.Function]*ir.Lockset
+	deleg                         []tmDelegation // Call -> the function that builds the future (v_timer_u3.go)
 }
 
 func resolveTimerRoles(c *Ctx) *timerRoles {
 	r := &timerRoles{}
 	r.callFn = c.RequireFn(c.P.Func("timeout", "Call"), "timeout.Call")
+	r.tmFollowDelegation(c) // Call may be a pure delegation to the function that builds the future (v_timer_u3.go)
 	r.all = c.P.FuncsOf("timeout")
 	heapIface := c.P.LookupTypeAny("container/heap", "Interface")
 	if heapIface == nil {
@@ -1250,6 +1252,10 @@ func timerRules(c *Ctx, pfx string) {
 				}
 			}
 		})
+		if !ok && st != nil {
+			_, val, _ := storeToField(st, r.fTime)
+			ok = r.tmFireTimeThroughDelegate(val) // the time parameter Call hands time.Now().Add(d) to (v_timer_u3.go)
+		}
 		c.Decide(pfx+"5", fn, "fire time = time.Now().Add(d)", st, ok, "Call does not store time.Now().Add(timeout) as the fire time")
 		if st != nil {
 			for _, ac := range callsTo(fn, r.add) {
@@ -1466,13 +1472,13 @@ func timerLiveRules(c *Ctx, pfx string) {
 			}
 			n++
 			c.NoPath(pfx+"1", "after Push: start a worker or wake one", in, ir.Query{Fn: fn, From: in,
-				Block: func(x ssa.Instruction) bool { return isSpawn(x) || isNotify(x) || r.tmRunnerForDue(x, in) }, Target: ir.IsExit},
+				Block: func(x ssa.Instruction) bool { return isSpawn(x) || r.tmNotifyTells(x) || r.tmRunnerForDue(x, in) }, Target: ir.IsExit},
 				"a future is queued and nobody is told: a sleeping worker keeps sleeping towards a later deadline (or no worker exists)")
 		})
 		if n == 0 {
 			c.Decide(pfx+"1", fn, "add pushes onto the heap", nil, false, "add does not call heap.Push")
 		}
-		c.timerPushAnnounced(r, pfx+"1", isSpawn, isNotify) // a Push outside add; a runner started for a due future (v_timer_g.go)
+		c.timerPushAnnounced(r, pfx+"1", isSpawn, r.tmNotifyTells) // a Push outside add; a runner started for a due future (v_timer_g.go)
 		// the spawn branch is taken exactly when no worker exists: spawn dominated by workers == 0; notify by workers != 0 (or unconditional)
 		ir.Instrs(fn, func(in ssa.Instruction) {
 			if isSpawn(in) {
@@ -1634,7 +1640,7 @@ func timerLiveRules(c *Ctx, pfx string) {
 			}
 			return false
 		}
-		c.NoPath(pfx+"11", "every path through the wake-up routine posts on the wake channel", nil, ir.Query{Fn: fn, Block: isPost, Target: ir.IsExit},
+		c.NoPath(pfx+"11", "every path through the wake-up routine posts on the wake channel", nil, ir.Query{Fn: fn, Block: isPost, BlockEdge: r.tmNoWorkerEdge, Target: ir.IsExit}, // no worker exists: nobody to wake (v_timer_u.go)
 			"the wake-up routine can return without posting: a caller that has decided to wake a worker (a new head, a cancelled head, the last future cancelled) is not heard, and the sleeping worker sleeps on towards a deadline that is gone or no longer the nearest")
 	}
 
@@ -1681,7 +1687,8 @@ func timerLiveRules(c *Ctx, pfx string) {
 			return negativeIdxEdge(from, to) || r.tmNotQueuedEdge(fn, from, to)
 		}
 		isRemove := func(in ssa.Instruction) bool { return heapCall(in, "Remove") != nil }
-		c.NoPath(pfx+"12", "a queued future is removed from the heap", nil, ir.Query{Fn: fn, Block: isRemove, BlockEdge: notQueuedEdge, Target: ir.IsExit},
+		// asked of the one future the routine is given, or of every element of a batch it loops over (v_timer_u.go)
+		c.timerCancelRemoves(r, pfx+"12", fn, isRemove, notQueuedEdge,
 			"the cancel routine can return for a future that is still queued without taking it out of the heap: the disarmed entry stays, becomes the head and a worker sleeps towards its deadline with nothing pending")
 		noWorkerEdge := func(from, to *ssa.BasicBlock) bool {
 			ef := ir.EdgeFact(from, to)
@@ -1717,7 +1724,7 @@ func timerLiveRules(c *Ctx, pfx string) {
 			if !isRemove(in) {
 				return
 			}
-			c.NoPath(pfx+"12", "after the removal a worker is woken", in, ir.Query{Fn: fn, From: in, Block: isNotify, BlockEdge: noWorkerEdge, Target: ir.IsExit},
+			c.tmNoPathConsts(pfx+"12", "after the removal a worker is woken", in, ir.Query{Fn: fn, From: in, Block: isNotify, BlockEdge: noWorkerEdge, Target: ir.IsExit},
 				"a future was taken out of the heap and no worker is told while one exists: the worker sleeping towards the cancelled deadline is not re-planned")
 		})
 	}
